@@ -86,7 +86,7 @@ func ExcludedRegions(id string) []string {
 func QuickRuns(id string) (int, int) {
 	switch id {
 	case "C09":
-		return 250, 120
+		return 350, 120
 	case "C02", "C03":
 		return 600, 120
 	case "C04":
